@@ -193,3 +193,18 @@ extern "C" void h_mna_insert()
 }
 
 VERIF_MAIN()
+
+/* must-fail canary (vacuity guard) for h_mna_remove: under the same preconditions a valid removal with a successor that has to be
+ * renumbered is reachable, so the claim that it never happens has to be refuted */
+extern "C" void h_canary_mna_remove_reachable()
+{
+    IN(int, in_bs); IN(int, in_cnt); IN(int, in_idx); IN(int, in_gk);
+    __CPROVER_assume(in_bs == CAP);
+    debug_level = 0;
+    nodes = (MgrNode *)malloc((CAP + 1) * sizeof(MgrNode));
+    MgrNodeArray &a = *new MgrNodeArray(CAP);
+    mk_mna(a, in_bs, in_cnt);
+    a.MgrNodeArray::Remove(in_idx);
+    __CPROVER_assume(0 <= in_gk && in_gk < in_bs);
+    __CPROVER_assert(!(0 <= in_idx && in_idx < in_cnt && in_gk >= in_idx && in_gk < in_cnt - 1 && a._count == in_cnt - 1), "canary: no removal ever has a successor to renumber (must be refuted)");
+}
